@@ -279,6 +279,31 @@ engine_a("C01",
     quick=tier(3000, 35),
 )
 
+D_REAL = ["nebula.Main / Control.Start / Control.Stop and every goroutine they start (udp reader, tun reader, handshake manager, connection manager, lighthouse update worker, punchy timers) — real, unmodified", "HostMap, HandshakeManager, LightHouse, relayManager, Firewall, PKI and config reload — real", "Go race detector (-race)"]
+D_STUB = ["UDP socket (udp.TesterConn, nebula's own channel-backed test double, tag e2e_testing)", "tun device (overlay.TestTun, same)", "network between nodes (the driver: drop, duplicate, jitter, long delay, partition/heal, blocked direct paths)", "wall clock (synctest bubble)", "crypto/rand (cryptotest seeded)"]
+
+check("C34",
+    pkg="e2e", engine="D-live", scenarios=["C34.live"], gomaxprocs=4,
+    quick=tier(400, 45, shrink_s=20, recheck=0), thorough=tier(40000, 1500, shrink_s=60, recheck=0),
+    technique="deterministic-schedule simulation of live nodes under the race detector: 2-4 real nebula instances (real Main, all goroutines) in one synctest bubble, a seeded driver that owns network, clock and every stimulus and fires bursts of concurrent stimuli (deliveries, tun traffic, reloads, control-API calls, closes, rebinds, stops/restarts); oracles = race detector reports attributed per run, stimulus calls that never return, real-time hang watchdog (lock cycles)",
+    rule="one run = 2-4 live nodes (static or lighthouse+relay topology with blocked direct paths, v1/v2, both curves) for 3-13 s (thorough: 5-45 s) of simulated time in rounds of [deliver due packets, one goroutine per destination | 0-5 further concurrent stimuli | wait for quiescence | advance clock 0-1.5 s] under drop/dup/jitter/long-delay/partition faults; distinct = distinct (topology, stimulus-kind set, delivery) abstract hash; non-trivial = application packets were delivered end to end, at least two stimuli hit one node in the same burst and at least 4 stimulus kinds occurred",
+    level_text="Seeded search over stimulus/fault schedules with real goroutines: any race-detector report whose access stacks include nebula code, any stimulus call (reload, close, API, delivery, stop) that has not returned after 30 s of simulated time, and any run that stops making progress in real time (goroutines waiting for mutexes: lock cycle or lost wake-up) is a violation. The schedule of stimuli, faults and clock steps is replayable from the tape; the order in which the Go runtime runs goroutines inside one burst is not controlled, so a replay re-executes the same schedule (up to 3 attempts) rather than the same instruction interleaving. Evidence, not proof.",
+    level_note="Trusted: the Go race detector (happens-before based: it reports an unsynchronised pair whenever both accesses occur in a run, independent of their observed order), synctest quiescence, the driver. Not explored: more than one reader routine per node (the test socket supports one), the Linux batch/offload paths, ssh/stats/dns listeners.",
+    real=D_REAL, stub=D_STUB,
+    assumptions=["goroutine order inside a burst is chosen by the Go runtime (GOMAXPROCS=4), not by the tape", "routines=1"],
+)
+
+check("C49",
+    pkg="e2e", engine="D-live", scenarios=["C49.stop"], gomaxprocs=4,
+    quick=tier(400, 45, shrink_s=20, recheck=0), thorough=tier(40000, 1500, shrink_s=60, recheck=0),
+    technique="deterministic-schedule simulation of live nodes: 2-4 real nebula instances in one synctest bubble driven by a seeded stimulus/fault schedule in which Control.Stop is injected at tape-chosen points (before Start, while handshaking, with live or relayed tunnels, in the same burst as a reload or other control calls, twice concurrently, followed or not by a restart); oracles on Stop/Wait return, device and socket closure, and the goroutines left in the bubble",
+    rule="one run = 2-4 live nodes for 3-13 s (thorough: 5-45 s) of simulated time with stop-heavy stimulus mix; every node is stopped by the end; distinct = distinct (topology, stimulus-kind set, delivery) abstract hash; non-trivial = at least one Stop hit a node that held pending or established tunnels",
+    level_text="Seeded search over stop points: for every stopped node Control.Stop has returned by the next quiescence, Control.Wait returns within 5 s of simulated time, the tun is closed, the socket swallows writes, State is Stopped; after all nodes are stopped and 90 s passed no goroutine other than the driver remains in the bubble (any goroutine, whoever started it); a Stop that blocks on a lock forever is caught by the real-time watchdog (class hang). Evidence, not proof.",
+    level_note="Trusted: synctest's goroutine accounting (runtime.Stack bubble labels), the driver. Socket closure is observed through the test double (a closed TesterConn discards injected packets). ssh/stats/dns listeners are not configured.",
+    real=D_REAL, stub=D_STUB,
+    assumptions=["goroutine order inside a burst is chosen by the Go runtime (GOMAXPROCS=4), not by the tape", "routines=1"],
+)
+
 NOT_APPLICABLE = {
     "C03": "pure encode/decode round trip over input bytes; no clock, schedule, fault or second party for a simulator to control",
     "C04": "pure function of (certificate to sign, signer); offline CLI; nothing to schedule or fault",
@@ -286,6 +311,7 @@ NOT_APPLICABLE = {
     "C20": "pure parser of one packet's bytes",
     "C21": "pure packet construction from one input packet and buffer size",
     "C22": "pure function of configuration text",
+    "C23": "pure function of the staged batch: MultiCoalescer/TCPCoalescer/UDPCoalescer are single-threaded, read no clock and meet no fault; 'arrival order' and the two tunnel sessions are part of the input (packets + (epoch, counter) sort keys), so deciding it is input generation against a reference segmenter, not simulation. An end-to-end variant (network reordering feeding the receive path of the whole-overlay simulator through a GSO-capable simulated tun) was planned in DESIGN.md and not built; the simulated tun does not advertise GSO, so the coalescers run in passthrough mode in every check",
     "C24": "pure function of one superpacket",
     "C25": "pure arithmetic over a buffer",
     "C27": "pure slicing/parsing of one received buffer",
